@@ -1064,12 +1064,17 @@ class Descriptor(ObjectWithFields):
                                      self.classname(), self.size, len(payload))
             self.size = len(payload)
         d.write('B', 'tag')
+        # the most significant 7 bit group is written first
         sizes = []
         size = self.size
         while size > 0x7f:
-            sizes.append(size & 0x7f)
+            sizes.insert(0, size & 0x7f)
             size = size >> 7
-        sizes.append(size & 0x7f)
+        sizes.insert(0, size & 0x7f)
+        # a size field that was padded with leading zero groups (many muxers
+        # always write four bytes) keeps its length
+        while (len(sizes) + 1) < getattr(self, 'header_size', 0):
+            sizes.insert(0, 0)
         while sizes:
             a = sizes.pop(0)
             flag = 0x80 if sizes else 0x00
